@@ -27,15 +27,35 @@ theorem unknown_key_oneof (c : Cfg) (ops : List PropDef) (k kr : Bytes) (v : PTr
     IsErr (decOneofMembers c ops (.cons k kr v rest) st found ct) := by
   unfold decOneofMembers; simp [hk, h, IsErr]
 
-theorem createField_dup (p : PropDef) (st : PS) (h : p.jsonName ∈ st.seen) :
-    createField p st = .err "already set" := by
+theorem createField_dup (props : List PropDef) (p : PropDef) (st : PS) (h : p.jsonName ∈ st.seen) :
+    createField props p st = .err "already set" := by
   unfold createField; simp [h]
+
+theorem createField_busy (props : List PropDef) (p : PropDef) (st : PS)
+    (h : groupBusy props p st.m = true) : IsErr (createField props p st) := by
+  unfold createField; split
+  · exact IsErr_err _
+  · simp [h, IsErr]
 
 /-- a second non-null value for a property that is already set (duplicate key) is an error,
 whatever the field kind and whatever the value looks like -/
 theorem duplicate_key (c : Cfg) (props : List PropDef) (p : PropDef) (t : PTree) (st : PS)
     (hseen : p.jsonName ∈ st.seen) (hnn : t ≠ .null) : IsErr (decProp c props p t st) := by
-  have hcf := createField_dup p st hseen
+  have hcf := createField_dup props p st hseen
+  unfold decProp
+  split
+  · unfold decScalarProp
+    cases t <;> simp [hcf, Outcome.bind, IsErr] at hnn ⊢
+  · unfold decEnumProp
+    cases t <;> simp [hcf, Outcome.bind, IsErr] at hnn ⊢
+  all_goals (cases t <;> simp [hcf, Outcome.bind, IsErr] at hnn ⊢)
+
+/-- a non-null value for a member of a proto oneof while a *different* member of that oneof is
+already set in the message is an error, whatever the field kind and whatever the value looks like
+(25c97b7; before, protobuf silently dropped the first member) -/
+theorem proto_oneof_second_member (c : Cfg) (props : List PropDef) (p : PropDef) (t : PTree) (st : PS)
+    (hbusy : groupBusy props p st.m = true) (hnn : t ≠ .null) : IsErr (decProp c props p t st) := by
+  obtain ⟨e, hcf⟩ := createField_busy props p st hbusy
   unfold decProp
   split
   · unfold decScalarProp
@@ -84,36 +104,37 @@ theorem scalar_prop_propagates (c : Cfg) (props : List PropDef) (p : PropDef) (k
     (hnn : t ≠ .null) (h : IsErr (decodeScalar c.O k tok)) : IsErr (decProp c props p t st) := by
   obtain ⟨e, he⟩ := h
   unfold decProp; rw [hf]; simp only []
-  unfold decScalarProp createField
-  cases t <;> simp only [goTok, Option.some.injEq] at hg <;> try (cases hg)
-  all_goals first
-    | exact absurd rfl hnn
-    | (simp only [goTok]
-       split
-       · exact ⟨_, rfl⟩
-       · simp only [Outcome.bind]
+  unfold decScalarProp
+  cases hcf : createField props p st with
+  | panic w => exact absurd hcf (createField_np props p st w)
+  | err e' => cases t <;> simp [Outcome.bind, IsErr, goTok] at hg hnn ⊢
+  | ok st1 =>
+    cases t <;> simp only [goTok, Option.some.injEq] at hg <;> try (cases hg)
+    all_goals first
+      | exact absurd rfl hnn
+      | (simp only [goTok, Outcome.bind]
          split
          · exact ⟨_, rfl⟩
          · simp [he, IsErr])
 
 /-- more than one key in a oneof -/
-theorem oneof_multiple_keys (ops : List PropDef) (a b : Bytes) (rest : List Bytes) (ct : Option Bytes) :
-    IsErr (oneofPost ops (a :: b :: rest) ct) := by
+theorem oneof_multiple_keys (ops : List PropDef) (a b : Bytes) (rest : List Bytes) (ct : Option Bytes)
+    (m : Fields) : IsErr (oneofPost ops (a :: b :: rest) ct m) := by
   unfold oneofPost; simp [IsErr]
 
 /-- a `!type` that contradicts the key present -/
-theorem oneof_type_mismatch (ops : List PropDef) (k name : Bytes) (h : k ≠ name) :
-    IsErr (oneofPost ops [k] (some name)) := by
+theorem oneof_type_mismatch (ops : List PropDef) (k name : Bytes) (m : Fields) (h : k ≠ name) :
+    IsErr (oneofPost ops [k] (some name) m) := by
   unfold oneofPost; simp [h, IsErr]
 
 /-- a `!type` naming no member (and no key) -/
-theorem oneof_type_unknown (ops : List PropDef) (name : Bytes) (h : findProp ops name = none) :
-    IsErr (oneofPost ops [] (some name)) := by
+theorem oneof_type_unknown (ops : List PropDef) (name : Bytes) (m : Fields)
+    (h : findProp ops name = none) : IsErr (oneofPost ops [] (some name) m) := by
   unfold oneofPost; simp [h, IsErr]
 
 /-- a failing post-check fails the oneof, whatever the closer -/
 theorem finishOneof_post_err (ops : List PropDef) (st : PS) (found : List Bytes) (ct : Option Bytes)
-    (term : Term) (h : IsErr (oneofPost ops found ct)) :
+    (term : Term) (h : IsErr (oneofPost ops found ct st.m)) :
     IsErr (finishOneof ops (.ok (st, found, ct, term))) := by
   obtain ⟨e, he⟩ := h
   unfold finishOneof
